@@ -1,6 +1,6 @@
 #!/bin/bash
 # runs every registered check once (tier $1, default quick) and prints one line each
-cd /verif
+cd "$(dirname "$0")/.."
 tier=${1:-quick}
 for p in $(python3 -c "
 import sys; sys.path.insert(0,'tools'); import registry
